@@ -13,6 +13,9 @@ type Program struct {
 	Fam   string
 	Prog  []*lang.N
 	Names []string // top-level variables whose final values are compared
+	Tag   string     // structural tag used in known-finding signatures (set by the generator)
+	Post  []string   // globals holding functions that the host calls after the run (vm.Get + vm.Call; argument 0 if they take one)
+	Meta  string     // generator coordinates, for samples and replay files
 	Toks  []lang.Tok // when set, the exact token sequence of the source (F1: flat operator chains)
 }
 
